@@ -7,6 +7,7 @@ import PgModel.C05Handles
 import PgModel.C05Dna
 import PgModel.C05Spec
 import PgModel.C05Geno
+import PgModel.C05MemSeq
 import PgGen.C05Fn
 import PgGen.C05Sig
 open Pg Pg.C05
@@ -410,6 +411,21 @@ def handle (j : J) : J :=
       let (_, outs) := run c [] ops
       .obj [("outs", .arr (outs.map outToJ))]
     | _, _ => bad "store"
+  | some "memseq" =>
+    let opOf (o : J) : Option SOp := do
+      match ← o.getStr? "k" with
+      | "add" =>
+        let rs ← (← o.getArr? "r").mapM (·.asStr?)
+        pure (.add (ofS (← o.getStr? "p")) (← (o.get? "m").bind modeOfJ) (rs.map ofS))
+      | "read" => pure (.read (ofS (← o.getStr? "p")))
+      | "mutate" => pure (.mutateResult 0 0)
+      | _ => none
+    match (j.getArr? "ops").bind (·.mapM opOf) with
+    | some ops =>
+      .obj [("outs", .arr ((sRun MemSeq.empty ops).2.map fun
+        | .unit => J.null
+        | .records rs => .obj [("r", .arr (rs.map fun r => .str (toS r)))]))]
+    | none => bad "memseq"
   | some "fn" =>
     let name : FnOrigin → String
       | .moduleDef => "module-def" | .moduleLambda => "module-lambda" | .classBodyDef => "class-body-def"
